@@ -31,7 +31,7 @@ NSH = 16
 
 
 def plan(tier, seed):
-    n = 1440 if tier == "quick" else 40000
+    n = 5760 if tier == "quick" else 60000
     return [{"name": "rt%02d" % i, "spec": {"n": n // NSH, "i": i}} for i in range(NSH)]
 
 
